@@ -23,6 +23,12 @@ def run(model, rep, tier):
     rep.rule('C05.R6', 'the loop that drives the result in post-mortem mode honours the driver protocol: '
              'stopTest (and with it the layers\' testTearDown) follows every startTest on every exit')
     tsrules.driver_brackets(ctx, rep, 'C05.R6')
+    rep.rule('C05.R7', 'every --repeat iteration runs the same test objects: after each test the '
+             'attribute dictionary of the test object is what it was when the test was handed over '
+             '(typestate of test.__dict__ over all result-event words: copy / clear / update with the '
+             'copy in the callbacks, or the same bracket in the loop of run_tests); a test object '
+             'that lost its attributes breaks the next iteration in the middle of its hook bracket')
+    tsrules.test_state_restored(ctx, rep, 'C05.R7')
     rep.rule('C05.R5', 'premises of the bases-first argument for the per-test layer list '
              '(gather_layers pre-order over all bases; order_by_bases reverses once and keeps first '
              'occurrences)')
